@@ -181,10 +181,7 @@ func (d *deriver) obligations(dv *Derived, formatter string) {
 	dv.ob("G-DATA/flags", "stub", fieldOf(data, "StubImpl") == interp.Value(e.Stub), "Data.StubImpl=%s with -stub=%v: the flag does not reach the template unchanged", interp.Show(fieldOf(data, "StubImpl")), e.Stub)
 	dv.ob("G-DATA/flags", "skip-ensure", fieldOf(data, "SkipEnsure") == interp.Value(e.SkipEnsure), "Data.SkipEnsure=%s with -skip-ensure=%v: the flag does not reach the template unchanged", interp.Show(fieldOf(data, "SkipEnsure")), e.SkipEnsure)
 	dv.ob("G-DATA/flags", "with-resets", fieldOf(data, "WithResets") == interp.Value(e.WithResets), "Data.WithResets=%s with -with-resets=%v: the flag does not reach the template unchanged", interp.Show(fieldOf(data, "WithResets")), e.WithResets)
-	wantPkg := SrcPkgName
-	if e.External {
-		wantPkg = DestPkgName
-	}
+	wantPkg := model.PkgName()
 	dv.ob("G-DATA/pkgname", "package-clause", symFlat(fieldOf(data, "PkgName")) == wantPkg, "Data.PkgName=%s, want %s", symFlat(fieldOf(data, "PkgName")), wantPkg)
 	// imports
 	var gotImp []string
